@@ -854,10 +854,10 @@ theorem reduceByStructuredModulus_spec (a multiple : List K) (md : Nat) (hmd : 1
     This is a consequence of "`ntt` is the DFT at a primitive root of unity and `intt` its inverse" (property C06)
     through the convolution theorem (property C07, `fast_multiply`). -/
 structure NttConv (N : NttOps K) : Prop where
-  length_ntt : ∀ u : List K, (N.ntt u).length = u.length
-  length_intt : ∀ u : List K, (N.intt u).length = u.length
+  length_ntt : ∀ u : List K, isPowerOfTwo u.length = true → (N.ntt u).length = u.length
   conv : ∀ u v : List K, u.length = v.length → isPowerOfTwo u.length = true →
     (denote u * denote v).degree < (u.length : WithBot ℕ) →
+    (N.intt (List.zipWith (· * ·) (N.ntt u) (N.ntt v))).length = u.length ∧
     denote (N.intt (List.zipWith (· * ·) (N.ntt u) (N.ntt v))) = denote u * denote v
 
 theorem degree_mul_lt_add {A B : K[X]} {a b : Nat} (hA : A.degree < a) (hB : B.degree < b) :
@@ -900,13 +900,15 @@ theorem nttReduceLoop_spec (N : NttOps K) (hN : NttConv N) (a low : List K) (chu
       unfold nttChecked; rw [hhpl, hpow]; simp
     set prodl := N.intt (List.zipWith (FK).mul (N.ntt hp) (N.ntt low)) with hprodl
     have hzl : (List.zipWith (FK).mul (N.ntt hp) (N.ntt low)).length = chunk + tail := by
-      rw [List.length_zipWith, hN.length_ntt, hN.length_ntt, hhpl, hlow]; simp
+      rw [List.length_zipWith, hN.length_ntt _ (by rw [hhpl]; exact hpow),
+        hN.length_ntt _ (by rw [hlow]; exact hpow), hhpl, hlow]; simp
     have hc2 : inttChecked N (List.zipWith (FK).mul (N.ntt hp) (N.ntt low)) = some prodl := by
       unfold inttChecked; rw [hzl, hpow]; simp [hprodl]
-    have hpl : prodl.length = chunk + tail := by rw [hprodl, hN.length_intt, hzl]
-    have hprod : denote prodl = H * denote low := by
-      have := hN.conv hp low (by rw [hhpl, hlow]) (by rw [hhpl]; exact hpow)
+    have hconv := hN.conv hp low (by rw [hhpl, hlow]) (by rw [hhpl]; exact hpow)
         (by rw [hhpl, hhpd]; exact degree_mul_lt_add hHdeg hS)
+    have hpl : prodl.length = chunk + tail := by rw [hprodl]; exact hconv.1.trans hhpl
+    have hprod : denote prodl = H * denote low := by
+      have := hconv.2
       rw [hhpd] at this
       exact this
     set fresh := (a.drop (k * chunk)).take chunk with hfresh
@@ -945,7 +947,7 @@ theorem reduceByNttFriendlyModulus_spec (N : NttOps K) (hN : NttConv N) (a low :
     ∃ r, reduceByNttFriendlyModulus FK N a (N.ntt low) tail = some r ∧
       (X ^ low.length + denote low : K[X]) ∣ denote a - denote r := by
   unfold reduceByNttFriendlyModulus
-  simp only [hN.length_ntt, hpow, Bool.not_true, Bool.false_eq_true, if_false]
+  simp only [hN.length_ntt low hpow, hpow, Bool.not_true, Bool.false_eq_true, if_false]
   rw [if_neg (by omega)]
   have hct : low.length - tail + tail = low.length := by omega
   split
